@@ -157,6 +157,7 @@ type World struct {
 	Pkgs     map[string]*ssa.Package // by import path
 	InitPkgs map[string]bool         // packages whose init is executed for real
 	Sizes    types.Sizes
+	RepoDir  string // root of the tree under analysis (stripped from reported positions)
 }
 
 type pathEnd struct {
@@ -640,7 +641,9 @@ func (e *Exec) posOf0(in ssa.Instruction) string {
 	}
 	ps := e.Prog.Fset.Position(p)
 	fn := ps.Filename
-	if i := strings.Index(fn, "/repo/"); i >= 0 {
+	if rd := e.World.RepoDir; rd != "" && strings.HasPrefix(fn, rd+"/") {
+		fn = fn[len(rd)+1:]
+	} else if i := strings.Index(fn, "/repo/"); i >= 0 {
 		fn = fn[i+6:]
 	}
 	return fmt.Sprintf("%s:%d", fn, ps.Line)
